@@ -280,6 +280,9 @@ impl BlockManager {
         metrics
             .storage_block_engine_block_reclaiming
             .absolute(state.reclaiming_blocks.len() as _);
+
+        // A recovered device may have fewer clean blocks than the threshold (or none at all).
+        self.reclaim_if_needed(&mut state);
     }
 
     pub fn blocks(&self) -> usize {
@@ -306,6 +309,9 @@ impl BlockManager {
                 } else {
                     let (tx, rx) = oneshot::channel();
                     state.clean_block_waiters.push(tx);
+                    // Nobody else may be around to start a reclaim (e.g. right after recovering a device without
+                    // any clean block): make sure the waiter will be served.
+                    this.reclaim_if_needed(&mut state);
                     drop(state);
                     rx
                 }
